@@ -96,6 +96,15 @@ add('C08', 'exploration',
     'Ground truth from the derivation (self-checked with the reference lexer); flat expression comparison.',
     'DESIGN.md 3/C08')
 
+add('C09', 'exploration',
+    'the C08 derivation-bounded program x layout space x indent widths through the real formatter (and a CLI batch), judged '
+    'by the reference lexer; plus exhaustive single-token deletion/insertion mutants of small programs through every '
+    'tree-driven writer for the no-silent-loss clause',
+    'Every enumerated program/layout/width: no exception, identical significant tokens, comments, line-scope extents, token '
+    'count; every mutant: raises or keeps all tokens.',
+    'Strings compared by decoded value; ground truth from derivations; reference lexer.',
+    'DESIGN.md 3/C09')
+
 PENDING = {
 }
 
